@@ -253,7 +253,7 @@ def process_space(tier, seed):
         "prog": ["none", "poly"],
         "curves": [spaces.CURVE_CONFIGS["one"], spaces.CURVE_CONFIGS["two"], spaces.CURVE_CONFIGS["oneB_molar"], spaces.CURVE_CONFIGS["oneC"], spaces.CURVE_CONFIGS["two_sameT"]] if q else list(spaces.CURVE_CONFIGS.values()),
         "init_perm": [None, {"values": (2.5e-2, 3.0e-5)}, {"values": (1.0e-2, 8.0e-5), "units": "GPU"}, {"values": (2.0e-2, 4.0e-9)}],
-        "fit_kwargs": [{}, {"n_first": 1, "n_second": 1, "m_first": 0, "m_second": 0}] + ([] if q else [{"n_first": 2, "n_second": 1, "m_first": 1, "m_second": 1, "include_zero": True}]),
+        "fit_kwargs": [{}, {"n_first": 0, "n_second": 1, "m_first": 1, "m_second": 0}] + ([] if q else [{"n_first": 1, "n_second": 1, "m_first": 0, "m_second": 0}]) + ([] if q else [{"n_first": 2, "n_second": 1, "m_first": 1, "m_second": 1, "include_zero": True}]),
         "area": [1.0] if q else [0.05, 1.0], "amount": [50.0], "dt": core.lat([0.5, 2.0], seed)[:1] if q else core.lat([0.5, 2.0], seed),
         "ea": [(25000.0, 60000.0), (-9000.0, 0.0)],  # a negative and a zero activation energy are as valid as positive ones
         "steps": [1, 5],
@@ -280,6 +280,18 @@ def unit_space(tier, seed):
         "x0": core.lat([0.1], seed), "basis": ["weight", "molar"], "T": [333.15, 338.15],
     }
     return core.Space("nonideal_processes_initial_permeance_units", alph, lambda c: not (c["kind"] == "nonideal_iso" and c["prog"] != "none"))
+
+
+def drift_space(tier, seed):
+    """runs whose feed DRIFTS OUT of the composition range the curves were measured over (and runs that start outside it): the
+    permeances still follow the returned fits at the step's own composition."""
+    alph = {
+        "kind": ["nonideal_iso", "nonideal_noniso"], "mixture": ["H2O_EtOH"], "model": ["NRTL"], "mode": ["vac"], "prog": ["none"],
+        "curves": [{"law": "lawA", "temps": [333.15], "xs": [0.3, 0.4, 0.5, 0.6, 0.7]}, {"law": "lawA", "temps": [343.15, 313.15], "xs": [0.3, 0.4, 0.5, 0.6, 0.7]}],
+        "init_perm": [None, {"values": (2.5e-2, 3.0e-5)}], "fit_kwargs": [{}], "area": [3.0], "amount": [50.0], "dt": core.lat([2.0], seed), "ea": [(25000.0, 60000.0)],
+        "steps": [5], "x0": core.lat([0.33, 0.25, 0.72], seed), "basis": ["weight"], "T": [333.15, 338.15],
+    }
+    return core.Space("nonideal_processes_leaving_measured_range", alph)
 
 
 def curve_space(tier, seed):
@@ -329,7 +341,7 @@ def main(tier, seed):
                      "(the models differ and the statement does not choose)", "isothermal model: lag 0 or 1, one per run"],
         technique="explicit-state trace conformance of the permeance series against the returned fits, and differential comparison of the fits with the public search")
     U.install_fit_memo()
-    for sp in (process_space(tier, seed), unit_space(tier, seed), curve_space(tier, seed)):
+    for sp in (process_space(tier, seed), unit_space(tier, seed), drift_space(tier, seed), curve_space(tier, seed)):
         prewarm_public(sp)
         if sp.name.startswith("nonideal_processes"):
             spaces.prewarm(sp)
